@@ -241,7 +241,9 @@ func (b *c14Backend) response(since int) *StorageProfilesResponse {
 
 type c14Event struct {
 	// Kind: "sync" (mutation then partial sync), "full" (full sync), "fail"
-	// (sync attempt that fails), "lookup", "run" (a pending clean-up).
+	// (sync attempt that fails), "fail-full" (a due full sync fails; later
+	// syncs are partial until the retry interval has passed), "lookup", "run"
+	// (a pending clean-up).
 	Kind string `json:"kind"`
 	Arg  string `json:"arg,omitempty"`
 	Idx  int    `json:"idx,omitempty"`
@@ -398,6 +400,22 @@ func (sys *c14Sys) apply(e c14Event) (ok bool) {
 			vrt.Fatalf("refresh: %v", err)
 		}
 		sys.synced = sys.be.clone()
+	case "fail-full":
+		// The full-sync interval has elapsed and the full attempt fails; the
+		// syncs that follow fall inside the retry interval, so they are
+		// partial ones from the last good sync point.
+		if sys.db.lastFullSync.IsZero() {
+			return false
+		}
+		last := sys.db.lastFullSync
+		sys.db.lastFullSync, sys.db.lastFullSyncError = time.Time{}, time.Time{}
+		sys.failing = true
+		err := sys.db.Refresh(ctx)
+		sys.failing = false
+		if err == nil {
+			vrt.Fatalf("failing full refresh returned nil")
+		}
+		sys.db.lastFullSync = last
 	case "fail":
 		sys.failing = true
 		err := sys.db.Refresh(ctx)
@@ -529,7 +547,7 @@ func (sys *c14Sys) digest() string {
 	sort.Strings(parts)
 	var sb strings.Builder
 	sb.WriteString(strings.Join(parts, " "))
-	fmt.Fprintf(&sb, "|full=%v", db.lastFullSync.IsZero())
+	fmt.Fprintf(&sb, "|full=%v|ferr=%v|st0=%v", db.lastFullSync.IsZero(), db.lastFullSyncError.IsZero(), db.syncTime.IsZero())
 	// Backend: current state and change stamps relative to the sync point.
 	for _, b := range []*c14Backend{sys.be, sys.synced} {
 		sb.WriteString("|")
@@ -583,7 +601,7 @@ func c14Alphabet(sys *c14Sys) (evs []c14Event) {
 	for _, m := range c14Mutations {
 		evs = append(evs, c14Event{Kind: "sync", Arg: m})
 	}
-	evs = append(evs, c14Event{Kind: "full"}, c14Event{Kind: "fail"})
+	evs = append(evs, c14Event{Kind: "full"}, c14Event{Kind: "fail"}, c14Event{Kind: "fail-full"})
 	for i := range c14Lookups {
 		evs = append(evs, c14Event{Kind: "lookup", Idx: i})
 	}
